@@ -630,26 +630,26 @@ func (in *Interp) decodeRune(s Str, pos int) (*Term, int) {
 
 // ---- slicing / indexing ----
 
-func (in *Interp) optInt(fr *frame, v ssa.Value, def int) int {
-	if v == nil {
+func (in *Interp) optInt(fr *frame, ci *cinstr, i int, def int) int {
+	if !fr.has(ci, i) {
 		return def
 	}
-	return in.concInt(fr.get(v))
+	return in.concInt(fr.op(ci, i))
 }
 
-func (in *Interp) slice(x Val, lo, hi, max ssa.Value, fr *frame, ins *ssa.Slice) Val {
+func (in *Interp) slice(x Val, fr *frame, ci *cinstr) Val {
 	switch v := x.(type) {
 	case Str:
-		l := in.optInt(fr, lo, 0)
-		h := in.optInt(fr, hi, len(v.s))
+		l := in.optInt(fr, ci, 1, 0)
+		h := in.optInt(fr, ci, 2, len(v.s))
 		if l < 0 || h < l || h > len(v.s) {
 			panic(in.runtimePanic(fmt.Sprintf("slice bounds out of range [%d:%d] with length %d", l, h, len(v.s))))
 		}
 		return strSlice(v, l, h)
 	case Slice:
-		l := in.optInt(fr, lo, 0)
-		h := in.optInt(fr, hi, len(v.a))
-		m := in.optInt(fr, max, cap(v.a))
+		l := in.optInt(fr, ci, 1, 0)
+		h := in.optInt(fr, ci, 2, len(v.a))
+		m := in.optInt(fr, ci, 3, cap(v.a))
 		if l < 0 || h < l || m < h || m > cap(v.a) {
 			panic(in.runtimePanic(fmt.Sprintf("slice bounds out of range [%d:%d:%d] with capacity %d", l, h, m, cap(v.a))))
 		}
@@ -659,9 +659,9 @@ func (in *Interp) slice(x Val, lo, hi, max ssa.Value, fr *frame, ins *ssa.Slice)
 		return Slice{v.a[l:h:m]}
 	case *Val:
 		arr := (*in.deref(v)).(Array)
-		l := in.optInt(fr, lo, 0)
-		h := in.optInt(fr, hi, len(arr))
-		m := in.optInt(fr, max, len(arr))
+		l := in.optInt(fr, ci, 1, 0)
+		h := in.optInt(fr, ci, 2, len(arr))
+		m := in.optInt(fr, ci, 3, len(arr))
 		if l < 0 || h < l || m < h || m > len(arr) {
 			panic(in.runtimePanic("slice bounds out of range"))
 		}
